@@ -26,6 +26,13 @@ pub fn lonlat_to_cell(lonlat: LonLat, resolution: i32) -> Result<u64, String> {
     }
 
     if resolution < FIRST_HILBERT_RESOLUTION {
+        #[cfg(feature = "verif")]
+        crate::verif::set_lookup_info(crate::verif::LookupInfo {
+            branch: 1,
+            sample: 0,
+            estimates: 1,
+            best: 1.0,
+        });
         // For low resolutions there is no Hilbert curve, so we can just return as the result is exact
         let estimate = lonlat_to_estimate(lonlat, resolution)?;
         return serialize(&estimate);
@@ -50,7 +57,13 @@ pub fn lonlat_to_cell(lonlat: LonLat, resolution: i32) -> Result<u64, String> {
     let mut unique_estimates = Vec::new();
     let mut cells = Vec::new();
 
+    #[cfg(feature = "verif")]
+    let mut verif_sample_index: usize = 0;
     for sample in samples {
+        #[cfg(feature = "verif")]
+        {
+            verif_sample_index += 1;
+        }
         let estimate = lonlat_to_estimate(sample, resolution)?;
         let estimate_key = serialize(&estimate)?;
         if !estimate_set.contains(&estimate_key) {
@@ -60,6 +73,13 @@ pub fn lonlat_to_cell(lonlat: LonLat, resolution: i32) -> Result<u64, String> {
             // Check if we have a hit, storing distance if not
             let distance = a5cell_contains_point(&estimate, lonlat)?;
             if distance > 0.0 {
+                #[cfg(feature = "verif")]
+                crate::verif::set_lookup_info(crate::verif::LookupInfo {
+                    branch: if verif_sample_index == 1 { 2 } else { 3 },
+                    sample: (verif_sample_index - 1) as u8,
+                    estimates: unique_estimates.len() as u8,
+                    best: distance,
+                });
                 return serialize(&estimate);
             } else {
                 cells.push((estimate, distance));
@@ -69,6 +89,13 @@ pub fn lonlat_to_cell(lonlat: LonLat, resolution: i32) -> Result<u64, String> {
 
     // As fallback, sort cells by distance and use the closest one
     cells.sort_by(|a, b| b.1.partial_cmp(&a.1).unwrap_or(std::cmp::Ordering::Equal));
+    #[cfg(feature = "verif")]
+    crate::verif::set_lookup_info(crate::verif::LookupInfo {
+        branch: 4,
+        sample: 255,
+        estimates: unique_estimates.len() as u8,
+        best: cells[0].1,
+    });
     serialize(&cells[0].0)
 }
 
